@@ -44,6 +44,9 @@ pub enum Edit {
     Insert(String, String, Value),
     /// every annotation of FRI decommitment layer k relabelled as layer 10 + k
     RelabelLayer(usize),
+    /// the FRI part extended to `n` step entries (n - 1 committed layers): synthetic commitment and
+    /// decommitment annotations with recognisable values for every added layer - layer labels with two digits
+    ManyLayers(usize),
     /// every dynamic parameter set to a distinct value (its rank in key order + 1)
     DistinctDynamicParams,
 }
@@ -74,6 +77,7 @@ impl Edit {
             Edit::Insert(p, _, _) => format!("insert:{}", p),
             Edit::RelabelLayer(_) => "relabel-fri-layer".into(),
             Edit::DistinctDynamicParams => "distinct-dynamic-params".into(),
+            Edit::ManyLayers(n) => format!("many-layers:{}", n),
         }
     }
     fn to_json(&self) -> Value {
@@ -91,6 +95,7 @@ impl Edit {
             Edit::RenameKey(p, a, b) => json!({"e": "rename-key", "path": p, "from": a, "to": b}),
             Edit::Insert(p, k, v) => json!({"e": "insert", "path": p, "key": k, "value": v}),
             Edit::RelabelLayer(k) => json!({"e": "relabel-layer", "k": k}),
+            Edit::ManyLayers(n) => json!({"e": "many-layers", "n": n}),
             Edit::DistinctDynamicParams => json!({"e": "distinct-dynamic-params"}),
         }
     }
@@ -111,6 +116,7 @@ impl Edit {
             "rename-key" => Edit::RenameKey(s("path")?, s("from")?, s("to")?),
             "insert" => Edit::Insert(s("path")?, s("key")?, v.get("value")?.clone()),
             "relabel-layer" => Edit::RelabelLayer(u("k")?),
+            "many-layers" => Edit::ManyLayers(u("n")?),
             "distinct-dynamic-params" => Edit::DistinctDynamicParams,
             _ => return None,
         })
@@ -205,6 +211,39 @@ impl Edit {
                 }
                 if n == 0 {
                     return None;
+                }
+            }
+            Edit::ManyLayers(n) => {
+                let steps = d["proof_parameters"]["stark"]["fri"]["fri_step_list"].as_array_mut()?;
+                let have = steps.len();
+                if *n <= have {
+                    return None;
+                }
+                for _ in have..*n {
+                    steps.push(json!(1));
+                }
+                let ann = d["annotations"].as_array_mut()?;
+                // after the last commitment line of layer have-1, and after its last decommitment line
+                let last_commit = ann.iter().rposition(|a| a.as_str().map(|s| s.contains(&format!("/FRI/Commitment/Layer {}:", have - 1))).unwrap_or(false))?;
+                let mut commits = Vec::new();
+                for k in have..*n {
+                    commits.push(Value::String(format!("P->V[0:32]: /cpu air/STARK/FRI/Commitment/Layer {}: Commitment: Hash({:#x})", k, 0xc000 + k)));
+                }
+                for (j, c) in commits.into_iter().enumerate() {
+                    ann.insert(last_commit + 1 + j, c);
+                }
+                let last_decommit = ann.iter().rposition(|a| a.as_str().map(|s| s.contains(&format!("/FRI/Decommitment/Layer {}:", have - 1))).unwrap_or(false))?;
+                let mut lines = Vec::new();
+                for k in have..*n {
+                    for j in 0..3usize {
+                        lines.push(Value::String(format!("P->V[0:32]: /cpu air/STARK/FRI/Decommitment/Layer {}: Row {}, Column {}: Field Element({:#x})", k, 5, j, 0xa000 + 16 * k + j)));
+                    }
+                    for j in 0..2usize {
+                        lines.push(Value::String(format!("P->V[0:32]: /cpu air/STARK/FRI/Decommitment/Layer {}: For node {}: Hash({:#x})", k, 40 + j, 0xb000 + 16 * k + j)));
+                    }
+                }
+                for (j, l) in lines.into_iter().enumerate() {
+                    ann.insert(last_decommit + 1 + j, l);
                 }
             }
             Edit::DistinctDynamicParams => {
@@ -382,6 +421,10 @@ fn structure_edits(doc: &Value) -> Vec<Edit> {
         out.push(Edit::RelabelLayer(k));
     }
     out.push(Edit::DistinctDynamicParams);
+    // 11, 12 and 15 step entries: layer labels 10..14 sort before "Layer 2" as strings
+    for n in [11usize, 12, 15] {
+        out.push(Edit::ManyLayers(n));
+    }
     // nonce values
     if let Some(ann) = doc["annotations"].as_array() {
         if let Some((i, s)) = ann.iter().enumerate().find(|(_, a)| a.as_str().map(|s| s.contains("Proof of Work: POW: Data(")).unwrap_or(false)) {
